@@ -303,6 +303,7 @@ func RunWorker(h Harness, o WorkerOpts) (res WorkerResult) {
 				pb[k] = byte(uint64(i) >> (8 * k))
 			}
 			prog.WriteAt(pb[:], 0)
+			prog.WriteAt([]byte{1}, 8)
 		}
 		if o.Budget > 0 && i&63 == 0 && time.Since(start) > o.Budget {
 			res.To = i
@@ -379,7 +380,19 @@ func RunWorker(h Harness, o WorkerOpts) (res WorkerResult) {
 			continue
 		}
 		nunknown++
+		// minimisation executes shrunk scenarios, and one of those may kill the
+		// process (a corrupted structure overflowing the stack, say): leave the
+		// unminimised replay behind first, and say so in the progress file
+		if prog != nil {
+			rp0 := MakeReplay(h, o.Seed, i, sc, cfg, out, v, false)
+			p0 := WriteReplay(o.OutDir, rp0)
+			os.WriteFile(o.Progress+".unmin", []byte(p0), 0o644)
+			prog.WriteAt([]byte{2}, 8)
+		}
 		rp := Minimise(h, o.Seed, i, sc, cfg, out, v)
+		if prog != nil {
+			prog.WriteAt([]byte{1}, 8)
+		}
 		path := WriteReplay(o.OutDir, rp)
 		res.Violations = append(res.Violations, FoundViolation{rp.Violation.Signature, rp.Violation.Detail, path, i})
 		if nunknown >= o.MaxViol {
